@@ -22,9 +22,10 @@ TRUSTED = ["hand-written Gallina model coq/Model/Sig.v of src/signature/mod.rs a
            "(tied by this correspondence run)",
            "coq/Prim/Der.v as the DER codec of ecdsa 0.13.4 / der 0.5.1 (tied by this run: malformed stream); "
            "coq/Prim/Secp256k1.v recover_g as k256 0.10.4 recover_verify_key_from_digest_bytes",
-           "GROUP HYPOTHESES (premise `secp256k1_group` of the recovery theorems, Proofs/EcdsaSecp.v): same list as for C05 "
-           "(closure, abelian group, Z-action, smul n G = None, lift_x (xcoord P) (yodd P) = Some P, "
-           "yodd (pneg P) = negb (yodd P), order of G exactly n) on the valid points of Prim/Secp256k1.v",
+           "GROUP HYPOTHESES (premise `secp256k1_group` of the recovery theorems, Proofs/EcdsaSecp.v): same three statements as for C05 "
+           "(padd associative, smul (a+b) P = padd (smul a P) (smul b P), smul (a*b) P = smul a (smul b P)) on the valid "
+           "points of Prim/Secp256k1.v; closure of padd/pneg/smul, commutativity, inverses, smul 1 P = P, lift_x (xcoord P) (yodd P) = Some P, "
+           "yodd (pneg P) = negb (yodd P) and the exact order of G are proved (Proofs/SecpGroupPartial.v)",
            "tools/gen_tables.py: the fourteen SigHash enum values are regenerated from src/transaction/sighash.rs",
            "execution runs the BigZ instance (Uint63 primitives); Proofs/Secp256k1Refine.v proves it equal to the Z instance"]
 ASSUMPTIONS = ["'malformed DER is rejected' is proved for the Gallina codec (der_exact) and the model built on it; that the der / ecdsa "
